@@ -34,3 +34,20 @@ Theorem C11_mono : forall O A B b, lp_spec 0 O -> wfl A -> wfl B -> small_consts
   Forall (sat_tol REFINEMENT_TOLERANCE (q2r_val (bval b))) B.
 Proof. exact contains_mono. Qed.
 Print Assumptions C11_mono.
+
+(* ==== T1 tie (term list) ==== *)
+Require Import PyDict PyLoop PyTermList TermGen TermListGen TermListGenBase TermListGenEval.
+(* T1 tie: PolyhedralTermList.evaluate / contains_behavior as translated from polyhedra.py ON THIS RUN (gen/TermListGen.v) are the model functions the theorems above speak about (on lists of terms with distinct keys). proofs/TermListGenEval.v *)
+Theorem C11_code_evaluate :
+  forall (ts : list pterm) (b : pvars), Forall wft ts -> PolyhedralTermList_evaluate ts b = evaluate ts b.
+Proof. exact @evaluate_eq. Qed.
+Print Assumptions C11_code_evaluate.
+Theorem C11_code_contains_behavior :
+  forall (ts : list pterm) (b : pvars),
+       Forall wft ts -> PolyhedralTermList_contains_behavior ts b = contains_behavior ts b.
+Proof. exact @contains_behavior_eq. Qed.
+Print Assumptions C11_code_contains_behavior.
+Theorem C11_code_init :
+  forall o : option (list pterm), PolyhedralTermList_init o = opt_list o.
+Proof. exact @termlist_init_eq. Qed.
+Print Assumptions C11_code_init.
